@@ -432,7 +432,18 @@ def gen_spec(seed, profile="core", variant=None, templates=None):
         T = rng.choice((0.1, 0.6, 1.0, 1.3, 2.05))
     if variant == "finite":
         T = rng.choice((300, 400.5))
-    return {"seed": seed, "profile": profile, "variant": variant, "template": template, "nodes": nodes, "edges": edges,
+    pieces, mid_fin = [], False
+    rngp = random.Random(seed ^ 0xA11CE)
+    if rngp.random() < 0.2:
+        for _ in range(rngp.randint(1, 3)):
+            # cut points: arbitrary instants and instants on the event lattice (a run that stops exactly at an event time)
+            c = rngp.choice((round(rngp.uniform(0, T), 3), rngp.randint(0, int(T)) * 0.5, float(rngp.randint(0, int(T)))))
+            if 0 < c < T:
+                pieces.append(c)
+        pieces = sorted(set(pieces))
+        mid_fin = rngp.random() < 0.6
+    return {"pieces": pieces, "mid_finalise": mid_fin,
+            "seed": seed, "profile": profile, "variant": variant, "template": template, "nodes": nodes, "edges": edges,
             "construct_order": order, "connect_order": corder, "T": T, "random_seed": rng.randrange(10 ** 6), "item_length": item_len,
             "inject": inject, "twin": twin,
             # edges handed to the node constructors (in_edges=[...], out_edges=[...], as tests/test_machine.py does) and then connected
@@ -558,6 +569,14 @@ def run_case(seed, params=None, spec=None):
         m = build(spec, env)
         built = True
         fo = factory.FactoryOracle(mon, m, params)
+        # a run in several pieces (env.run(until=a); env.run(until=b); ...), optionally with the edge statistics read out
+        # (finalised) after each piece, as a script that reports intermediate results does
+        for t_piece in spec.get("pieces") or ():
+            env.run(until=t_piece)
+            mon.counters["e3_run_pieces"] += 1
+            if spec.get("mid_finalise") and not params.get("no_mid_finalise"):
+                fo._finish_edge_stats(t_piece)
+                mon.counters["c18_intermediate_finalisations"] += 1
         env.run(until=spec["T"])
     except Exception as e:
         exc = e
